@@ -5,18 +5,22 @@ SUB = {
     "time.NewTimer": P + "vC35_newTimer",
     "(*time.Timer).Stop": P + "vC35_timerStop",
     "context.WithDeadline": P + "vC35_withDeadline",
+    "github.com/tochemey/goakt/v4/internal/address.FormatHostPort": P + "vC35_hostPort",
     "(*" + P + "actorSystem).ActorOf": P + "vC35_actorOf",
     "(*" + P + "actorSystem).InCluster": P + "vC35_inClusterFn",
 }
+LOOP = "(*" + P + "PID).deliverAcrossHandoff"
 CHECK = {
     "id": "C35",
     "packages": ["./actor"],
     "harness": ["actor/zz_verif_c35.go"],
     "entries": [
-        {"fn": P + "vC35_across", "replay": "model-only"},
+        {"fn": P + "vC35_across", "replay": "model-only", "opts": {"unwind_mode": "assume"},
+         "opts_quick": {"loop_bounds": {LOOP: 6}}, "opts_thorough": {"loop_bounds": {LOOP: 16}}},
+        {"fn": P + "vC35_across_e2e", "replay": "model-only", "opts": {"unwind": 3, "unwind_mode": "assume"}},
         {"fn": P + "vC35_bypass", "replay": "model-only"},
     ],
-    "opts": {"unwind": 20, "substitute": SUB},
+    "opts": {"unwind": 20, "substitute": SUB, "fresh_solver": True},
     "stop": [k for k in SUB.keys() if k.startswith("(*" + P)],
     "explanation": "(*PID).deliverAcrossHandoff, (*PID).deliverBypassingHandoff, sleepWithinHandoff, isHandoffRetryable, (*actorSystem).isEndpointRelocating / relocationInFlight / recordRelocationHandoff and the real xsync.TTLMap (Set/Get/ActiveLen) behind relocatingEndpoints are executed symbolically. "
                    "The clock is owned by the harness (time.Now, time.Until, time.NewTimer, (*time.Timer).Stop and context.WithDeadline are substituted): every clock reading, resolution, timer creation and delivery lets an arbitrary latency pass, which is accumulated in a slack term; a timer of duration d advances the clock by d (+latency) or the caller's context is cancelled before it fires; "
